@@ -16,6 +16,14 @@ CHECKS = {
              text="TLC enumerates every fast-path PDU shape (0..3/4 updates, bitmap updates with 0..3 rectangles mixed with other update kinds, both length forms); the harness concretises fields and data lengths; the expected callbacks are derived by the TLA+ server grammar from the bytes actually sent and must equal the recorded callbacks one to one, in order, field by field, data byte by data byte.",
              note="Trusted: TLC, WireServer.tla (transcription of MS-RDPBCGR 2.2.9.1.2), reference encoder only for producing bytes (re-decoded by the spec). Conformant, uncompressed, unfragmented updates only.",
              ref="DESIGN.md section 6 C10"),
+ "C13": dict(cat="model_checking", tech="TLA+ spec TransportRead.tla (stepwise reader vs reference deframer) model-checked by TLC under every delivery schedule; trace validation of tpkt/x224 read calls with the module's invariants; TLC-evaluated full-domain header tables compared with the implementation",
+             text="TLC proves that the four-sized-reads reader returns exactly the reference frames and consumes exactly their bytes for every stream of <= 3 model frames under every chunking (and shows the as-implemented zero-length-body variant violates it). Recorded read calls on a chunking stream are appended to the model state and ExactFrames / NoOverConsumption / RejectConsumes are evaluated by TLC on every state. The reference header interpretation is evaluated by TLC over all 65536 TPKT lengths and all fast-path length forms and compared with the implementation's outcome, each frame followed by a second one.",
+             note="Trusted: TLC, scripted stream, pattern-based content comparison for the 100k-row tables. The scripted stream returns Ok(0) at end of data.",
+             ref="DESIGN.md section 6 C13"),
+ "C14": dict(cat="model_checking", tech="TLA+ spec TransportWrite.tla model-checked by TLC over every accept schedule and failure point; trace validation of Link/tpkt/x224 write calls against an adversarial Write; TLC-evaluated framing table for every payload length",
+             text="TLC proves CompleteOrError / OnlyFramePrefix for the looping writer under every partial-accept schedule, Ok(0) and failure (and shows the single-write variant violates it). Recorded write calls (payload, bytes the stream accepted, result, whether a failure or Ok(0) was injected) must satisfy the same invariants; the framing reference is evaluated by TLC for payload lengths 0..70000 on three layers and compared with what reached the stream.",
+             note="Trusted: TLC, adversarial stream bookkeeping, pattern-based content comparison in the table part. Ok(0) may yield either an error or a retry.",
+             ref="DESIGN.md section 6 C14"),
 }
 
 NOT_YET = {
